@@ -23,6 +23,9 @@ type ProvDesc struct {
 	Cluster                                                                         int // 0 = none, else group number within the case
 	Replace, Before, After                                                          string
 	Refl                                                                            bool // supplied through the Reflective interfaces
+	// supplied through GenerateFromInjectionChain: the generator (marked NonFinal iff GenNF, carrying the name and the named-edit
+	// directives) is listed, and replaces itself by the provider described here
+	Gen, GenNF bool
 
 	// behaviour script
 	FailMask uint // fallible: TerminalError non-nil on call k iff bit (k%8) is set
@@ -71,6 +74,8 @@ func (p *ProvDesc) annString() string {
 	add(p.Reorder, "reorder")
 	add(p.Parallel, "parallel")
 	add(p.Refl, "refl")
+	add(p.Gen, "gen")
+	add(p.GenNF, "gennf")
 	if len(a) == 0 {
 		return "-"
 	}
